@@ -143,10 +143,12 @@ real violation of the property that raises it.
 ### 9.2 Sensitivity catalogue (`sim/mutants.py`, `run.py selftest`)
 
 %d hand-written one- or two-site patches, each applied to a scratch copy and
-run at half the quick budget; every replay reproduces in a fresh interpreter.
-`c20-load-outside-lock` (lock removed from `load_rules` only) is marked
-`may_be_equivalent`: it is observable only when a thread reloads through a
-direct `load_rules()` call.
+run at half the quick budget (`logs/selftest_final.txt`, final code): all are
+reported, every replay reproduces in a fresh interpreter, and the six
+unpatched scratch copies are clean. `c20-load-outside-lock` (lock removed
+from `load_rules` only) is observable only when a thread reloads through a
+direct `load_rules()` call; it is reported since the reloading thread does
+that too.
 
 | property | mutants |
 |---|---|''' % len(mutants.MUTANTS))
